@@ -154,9 +154,14 @@ def register(prop: str):
     return deco
 
 
+def evidence_dir() -> str:
+    # self-tests analyse scratch copies and must not clobber the evidence of the real tree
+    return os.environ.get("HEXLINT_EVIDENCE_DIR") or os.path.join(VERIF, "evidence")
+
+
 def write_evidence(res: Result, wall: float, violations: int, known_hits: List[str], seed: int, repo: Optional[Repo]):
-    os.makedirs(os.path.join(VERIF, "evidence"), exist_ok=True)
-    path = os.path.join(VERIF, "evidence", f"{res.prop}.json")
+    os.makedirs(evidence_dir(), exist_ok=True)
+    path = os.path.join(evidence_dir(), f"{res.prop}.json")
     rules = {}
     for k, v in res.rules.items():
         rules[k] = dict(v)
@@ -196,7 +201,7 @@ def write_evidence(res: Result, wall: float, violations: int, known_hits: List[s
 
 
 def write_replay(prop: str, f: Finding) -> str:
-    d = os.path.join(VERIF, "evidence", "replay")
+    d = os.path.join(evidence_dir(), "replay")
     os.makedirs(d, exist_ok=True)
     h = hashlib.sha256("|".join(f.key()).encode()).hexdigest()[:12]
     path = os.path.join(d, f"{prop}-{h}.json")
